@@ -33,7 +33,23 @@ func FanOut(r Rand, argT *spec.Type, tag string, v int) *spec.Spec {
 	}
 	other := r.Pick(1, 2, 5)
 	var ins []int
-	switch v % 5 {
+	switch v % 7 {
+	case 5, 6:
+		// The same slice consumed by combiner-less shuffles of the same width under
+		// DIFFERENT key prefixes: w = (k1, k2, v) is shuffled by (k1, k2) in one
+		// branch (compiled first) and folded by k1 alone in the other.
+		w := add(spec.Node{Op: "map", Fn: "widen", M: r.Pick(2, 3), In: []int{x}})
+		p2 := add(spec.Node{Op: "prefixed", M: 2, In: []int{w}})
+		var a int
+		if v%7 == 5 {
+			cg := add(spec.Node{Op: "cogroup", In: []int{p2}})
+			a = add(spec.Node{Op: "map", Fn: "cgflat", In: []int{cg}})
+		} else {
+			a = add(spec.Node{Op: "reshuffle", In: []int{p2}})
+		}
+		p1 := add(spec.Node{Op: "prefixed", M: 1, In: []int{a}})
+		ins = append(ins, add(spec.Node{Op: "fold", Fn: "cnt", In: []int{p1}}))
+		ins = append(ins, add(spec.Node{Op: "fold", Fn: r.PickS("sum", "cnt"), In: []int{w}}))
 	case 0: // direct consumer + shuffle into one shard
 		ins = append(ins, add(spec.Node{Op: "map", Fn: "inc", M: 1, In: []int{x}}))
 		ins = append(ins, add(spec.Node{Op: "reshard", Shards: 1, In: []int{x}}))
@@ -71,6 +87,65 @@ func KVProgram(r Rand, tag string) *spec.Spec {
 	s := &spec.Spec{Tag: tag, Nodes: []spec.Node{n, {Op: "map", Fn: "inc", M: r.Pick(1, 2), In: []int{0}}}}
 	if _, err := s.Types(); err != nil {
 		panic(fmt.Sprintf("gen.KVProgram: %v", err))
+	}
+	return s
+}
+
+// StreamConsumer builds a program in which a task reads ONE encoded stream of
+// several batches whose sizes shrink (a single producer: a one-shard shuffle, or
+// — when argT is given — the Result of an earlier invocation), through an operator
+// that pulls with destinations smaller than a batch (Filter with a partly selective
+// predicate, Flatmap, Head) — the executor's codec path, which the local executor
+// never takes. chunk is the configured vector size (0 = default).
+func StreamConsumer(r Rand, argT *spec.Type, tag string, chunk int) *spec.Spec {
+	if chunk <= 0 {
+		chunk = 128
+	}
+	var nodes []spec.Node
+	add := func(n spec.Node) int { nodes = append(nodes, n); return len(nodes) - 1 }
+	var x int
+	if argT != nil {
+		t := *argT
+		x = add(spec.Node{Op: "arg", T: &t})
+	} else {
+		// Distinct keys: 2..3 full batches and a shorter last one.
+		n := chunk*r.Pick(2, 2, 3) + r.Pick(1, chunk/2+1, chunk-1)
+		src := spec.Node{Op: "const", KT: r.PickS("int", "string"), N: n, Card: n, Shards: r.Pick(1, 1, 2), DSeed: r.Intn(1000)}
+		if r.Chance(0.4) {
+			src.Op = "readerfunc"
+			src.Chunks = []int{r.Pick(7, 64, 1000)}
+			src.EOFData = r.Chance(0.5)
+		}
+		x = add(src)
+		switch r.Intn(3) {
+		case 0:
+			x = add(spec.Node{Op: "reshard", Shards: 1, In: []int{x}})
+		case 1:
+			x = add(spec.Node{Op: "reshard", Shards: 1, In: []int{x}})
+			x = add(spec.Node{Op: "reduce", Fn: r.PickS("sum", "min"), In: []int{x}})
+		default:
+			if nodes[0].Shards == 1 {
+				x = add(spec.Node{Op: "reduce", Fn: r.PickS("sum", "xor"), In: []int{x}})
+			} else {
+				x = add(spec.Node{Op: "reshard", Shards: 1, In: []int{x}})
+			}
+		}
+	}
+	switch r.Intn(4) {
+	case 0:
+		x = add(spec.Node{Op: "filter", M: r.Pick(2, 3, 5), In: []int{x}})
+	case 1:
+		x = add(spec.Node{Op: "flatmap", M: r.Pick(1, 2, 3), In: []int{x}})
+	case 2:
+		x = add(spec.Node{Op: "filter", M: r.Pick(2, 3), In: []int{x}})
+		x = add(spec.Node{Op: "map", Fn: "inc", M: 1, In: []int{x}})
+	default:
+		x = add(spec.Node{Op: "flatmap", M: 2, In: []int{x}})
+		x = add(spec.Node{Op: "filter", M: 3, In: []int{x}})
+	}
+	s := &spec.Spec{Nodes: nodes, Tag: tag}
+	if _, err := s.Types(); err != nil {
+		panic(fmt.Sprintf("gen.StreamConsumer: %v", err))
 	}
 	return s
 }
